@@ -5,5 +5,10 @@ CHECKS = {
   "note": "Trusted: Lean kernel; translator translate/c34.py (cross-checked against inspect.signature); net._options as observable; value domains of 21 options (sentinel 'auto' as stored value excluded). Known finding C34|arg-equals-default is reproduced and printed as KNOWN-FINDING.",
   "technique": "Lean 4 proof over source-generated option-precedence model + differential correspondence",
  },
+ "C30": {
+  "text": "Lean refinement theorem: a heap model of Diagnostic (module-level default dict/list, per-instance cells, alias-vs-copy binding and in-place-vs-per-call kwargs merge, all three regenerated from diagnostic.py on every run) refines, for every history over any number of instances, an abstract per-instance model with no shared state; witnesses show each unsafe binding is observably wrong. Correspondence: the functions and kwargs every diagnose_network call really works with (recorded on the real class) vs the model, over random histories; 'net unchanged' by exact input-table snapshots around real diagnostic runs on generated nets.",
+  "note": "Trusted: Lean kernel; translator translate/c30.py (alias/copy classification of __init__ right-hand sides, detection of self.kwargs mutation); recording by patching DiagnosticFunction.diagnostic. The 'leaves the network unchanged' clause has no Lean model of the 18 diagnostic function bodies: it is decided by snapshot comparison on executed cases only (stated in evidence).",
+  "technique": "Lean 4 refinement proof (heap model -> per-instance spec) over source-generated binding semantics + history correspondence",
+ },
 }
 NOT_YET = {}
